@@ -141,6 +141,36 @@ def forwarderOk (f : FnSig) : Bool := f.forwardsToUnsafe.isNone || f.isUnsafe
 def mustBeUnsafe (f : FnSig) : Bool :=
   f.nameUnchecked || f.hasSafetyDoc || f.forwardsToUnsafe.isSome
 
+/-! ### Bitwise copies need `T: Copy` -/
+
+/-- NAME rule: a fn of a type of `vecs::` called `copy` or `…_copy…` announces a bitwise copy. -/
+def nameSaysCopy (f : FnSig) : Bool :=
+  keyStartsWith f.ownerKey (key% "vecs::") &&
+    (f.simpleKey == key% "copy" || keyContains f.simpleKey (key% "_copy"))
+
+/-- BODY rule: the fn (or a same-type / free crate fn it calls) uses a raw-copy primitive, reads
+    from a source that stays alive (`&self`, `&[T]`, `&Self`) and produces owned elements
+    (returns `Self`/`T`, or writes into `&mut self`): the source and the product both own the
+    same bits afterwards. (Fns that MOVE elements — `pop`, `remove`, `insert`, `swap_remove`,
+    `split_off`, `append`, `from_array`, iterators — read from `&mut self` / owned values only and
+    are not matched; a duplication WITHIN `&mut self`, as `extend_from_within_copy`, is matched by
+    the name rule only.) -/
+def bodyDuplicates (f : FnSig) : Bool :=
+  f.dupBits.isSome && f.sharedSrc && f.producesOwned && f.elemParam != 0
+
+/-- The fn must require `T: Copy` of its element type. -/
+def needsCopy (f : FnSig) : Bool := nameSaysCopy f || bodyDuplicates f
+
+/-- Reviewed exemptions (full row names): fns matched by `needsCopy` that are sound without
+    `T: Copy`. EMPTY on the current source: every matched fn carries the bound. -/
+def copyExempt : List Nat := []
+
+/-- Row predicate of `bitwise_copy_requires_copy` (safe AND unsafe fns: `T: Copy` is a
+    requirement on the type argument, which no `# Safety` contract of the crate mentions). -/
+def bitwiseCopyOk (f : FnSig) : Bool :=
+  !needsCopy f || (f.elemParam != 0 && f.bounds.contains (f.elemParam, key% "Copy")) ||
+    copyExempt.contains f.key
+
 /-- Row predicate of `name_unchecked_consistent` (translator cross-check, on keys). -/
 def nameFlagOk (f : FnSig) : Bool :=
   f.nameUnchecked == keyEndsWith f.simpleKey (key% "_unchecked") &&
